@@ -157,10 +157,27 @@ type File struct {
 	Name    string // a  (file foo/v1/a.j5s)
 	Imports []Import
 	Decls   []any // *Decl, *Service, *Topic, *Entity
+	// IsProto: a hand-written proto3 file (foo/v1/a.proto) holding plain
+	// messages and enums; ProtoImports are its import paths.
+	IsProto      bool
+	ProtoImports []string
 }
 
 func (f *File) Package() string { return strings.ReplaceAll(f.Dir, "/", ".") }
-func (f *File) Path() string    { return f.Dir + "/" + f.Name + ".j5s" }
+func (f *File) Path() string {
+	if f.IsProto {
+		return f.Dir + "/" + f.Name + ".proto"
+	}
+	return f.Dir + "/" + f.Name + ".j5s"
+}
+
+// OutPath is the path of the compiled descriptor of the file.
+func (f *File) OutPath() string {
+	if f.IsProto {
+		return f.Dir + "/" + f.Name + ".proto"
+	}
+	return f.Dir + "/" + f.Name + ".j5s.proto"
+}
 
 func (f *File) Add(d any) {
 	if dd, ok := d.(*Decl); ok {
@@ -229,7 +246,68 @@ func (o *w) p(format string, a ...any) {
 	o.sb.WriteString("\n")
 }
 
+// renderProto spells a hand-written proto3 file: plain messages and enums only.
+func (f *File) renderProto() string {
+	o := &w{}
+	o.p("syntax = \"proto3\";")
+	o.p("")
+	o.p("package %s;", f.Package())
+	if len(f.ProtoImports) > 0 {
+		o.p("")
+	}
+	for _, im := range f.ProtoImports {
+		o.p("import %q;", im)
+	}
+	for _, d := range f.Decls {
+		dd := d.(*Decl)
+		o.p("")
+		switch dd.Kind {
+		case DEnum:
+			o.p("enum %s {", dd.Name)
+			o.indent++
+			o.p("%s_UNSPECIFIED = 0;", Screaming(dd.Name))
+			for i, opt := range dd.Options {
+				o.p("%s_%s = %d;", Screaming(dd.Name), opt.Name, i+1)
+			}
+			o.indent--
+			o.p("}")
+		default:
+			o.p("message %s {", dd.Name)
+			o.indent++
+			for i, fd := range dd.Fields {
+				o.p("%s %s = %d;", protoTypeSpelling(fd.T), Snake(fd.Name), i+1)
+			}
+			o.indent--
+			o.p("}")
+		}
+	}
+	return o.sb.String()
+}
+
+func protoTypeSpelling(t *Type) string {
+	switch t.K {
+	case TArray:
+		return "repeated " + protoTypeSpelling(t.Elem)
+	case TMap:
+		return "map<string, " + protoTypeSpelling(t.Elem) + ">"
+	case TString:
+		return "string"
+	case TBool:
+		return "bool"
+	case TInt32:
+		return "int32"
+	case TInt64:
+		return "int64"
+	case TObject, TEnum, TOneof:
+		return t.Ref.To.FullName()
+	}
+	panic("protoTypeSpelling: " + t.K.String())
+}
+
 func (f *File) Render() string {
+	if f.IsProto {
+		return f.renderProto()
+	}
 	o := &w{}
 	o.p("package %s", f.Package())
 	if len(f.Imports) > 0 {
